@@ -39,6 +39,9 @@ def gen_scenario(rng):
     sndbuf = rng.choice([256, 512, 2048])
     adj = {"threads": 1, "outbuf_high_watermark": mark, "send_bytes": rng.choice([1, 1, 64, 18000]),
            "asyncore_use_poll": rng.random() < 0.5, "channel_request_lookahead": rng.choice([0, 0, 1])}
+    if rng.random() < 0.2:
+        # whether socket errors are logged must not change what the server does about them
+        adj["log_socket_errors"] = False
     base = max(mark, 8)
     wsizes = [1, max(1, base - 1), base, base + 1, 3 * base]
     nwrites = rng.choice([2, 3, 5, 8])
